@@ -201,20 +201,20 @@ Proof. exact release_admission_only. Qed.
 Print Assumptions C06_release_admission_only.
 
 (* per-client quota admission marker (6d9c096): an activation refused at the marker — another request of the SAME
-   listen client is being admitted, or the SetNX failed — returns an error and changes nothing *)
+   listen client is in admission, or the SetNX failed — returns an error and changes nothing *)
 Theorem C06_refused_at_admission_changes_nothing :
   forall (P : params) (t : lo) (s : sh) l la ok,
-  l_kind t = KAct l la ok -> l_pc t = PAdmit ->
+  l_kind t = KAct l la ok -> l_pc t = PAdm ->
   (existsb (N.eqb l) (admk s) = true \/ l_fault t = Some 0) ->
   snd (tstep Current P t s) = s /\ exists e, l_pc (fst (tstep Current P t s)) = PDone (RErr e).
 Proof. exact refused_at_admission_changes_nothing. Qed.
 Print Assumptions C06_refused_at_admission_changes_nothing.
 
 (* activators with DIFFERENT listen clients do not contend on it: a caller whose own client's marker is free is
-   admitted whatever other markers are set, and takes exactly its own *)
+   let in whatever other markers are set, and takes exactly its own *)
 Theorem C06_admission_is_per_client :
   forall (P : params) (t : lo) (s : sh) l la ok,
-  l_kind t = KAct l la ok -> l_pc t = PAdmit -> existsb (N.eqb l) (admk s) = false -> l_fault t <> Some 0 ->
+  l_kind t = KAct l la ok -> l_pc t = PAdm -> existsb (N.eqb l) (admk s) = false -> l_fault t <> Some 0 ->
   l_pc (fst (tstep Current P t s)) = PQuota /\ admk (snd (tstep Current P t s)) = l :: admk s.
 Proof. exact admission_is_per_client. Qed.
 Print Assumptions C06_admission_is_per_client.
